@@ -54,6 +54,51 @@ claim("C06", "symx",
       "reals not floats (A1); kabsch contract stub; polygons from a concrete base list; z3 trusted",
       "DESIGN.md §6 C06")
 
+claim("C05", "symx",
+      "symbolic execution of the real is_inside with free query points (piecewise-constant terms / concolic paths); z3 decides impl <=> exact membership over all of space",
+      "ConvexPolyhedron.is_inside and Polyhedron.is_inside (winding number, real polytri triangulation) run once per concrete rational solid (convex, "
+      "non-convex, non-star-shaped, genus 1; rational rotations and offset; (3,), (N,3), batch of 3) with the query point(s) free in R^3: one query per "
+      "obligation shows the result equals membership in an independent convex decomposition for every point off the surface, including points sharing "
+      "coordinates with vertices. Sphere/Ellipsoid: all parameters and the point free. ConvexSpheropolyhedron.is_inside (branching code incl. nested "
+      "ConvexPolyhedron constructions): box cores, free point and rounding radius, concolic path budget, oracle = distance to the box.",
+      "reals not floats (A1); qhull/kabsch contract stubs; base-set solids <= 16 vertices; path budget for the spheropolyhedron",
+      "DESIGN.md §6 C05")
+claim("C08", "symx",
+      "symbolic execution of every setter found by reflection with a free real target of either sign; z3 decides read-back, similarity and refusal claims",
+      "All ~100 settable properties of the ten classes are enumerated at run time; each setter runs with a free real target v, the code's own guards fork "
+      "the paths so v>0 and v<=0 are both covered; claims: read-back equals v, one common positive factor on all vertices/radii/semi-axes, normals and "
+      "centres unchanged (translation for centroid/center), ValueError and untouched state for v<=0; NaN produced by sqrt/power of a negative double is "
+      "modelled. Curved shapes with all parameters free; polytopes are concrete off-origin tilted base shapes.",
+      "reals not floats (A1); NaN targets outside; single semi-axes and rounding radii set one parameter only; miniball modelled for concrete points only",
+      "DESIGN.md §6 C08")
+
+claim("C02", "symx",
+      "bounded symbolic execution + SMT (z3 QF_NRA) of the real Polyhedron code incl. polytri and per-face ConvexPolygon construction, free placement",
+      "Polyhedron constructor, volume, get_face_area (real ConvexPolygon constructor per face), surface_area, centroid (real polytri ear clipping incl. matrix "
+      "inverse and thresholds) and inertia_tensor run on L/U/C/arrow prisms with triangulated caps, a frame with a hole, a dented star-shaped hull and Polyhedron "
+      "copies of convex solids, placed by a free scale s in [1/4,100], a free translation and rational rotations; compared with signed-tetrahedron sums over a "
+      "fan triangulation of the given faces. In the quick tier every alternative of every obligation was refuted (one path covers all placements).",
+      "reals not floats (A1); scale range chosen where polytri's absolute thresholds are inactive; kabsch / 2-D qhull contract stubs",
+      "DESIGN.md §6 C02")
+claim("C03", "symx",
+      "symbolic execution of mutation histories with symbolic arguments; every observable compared with a freshly constructed shape; z3 decides the equalities",
+      "All setters (reflection) plus diagonalize_inertia (orthogonal matrices by the eigh contract, proper and improper), merge_faces, sort_faces, to_hoomd and a "
+      "read-everything step (fills caches) run on base shapes of the six vertex-based classes with free positive targets in [1/10,1000] and free centroids; "
+      "histories of depth 1 over the whole alphabet and depth 2 (quick) / 3 (thorough) over a reduced one. Afterwards faces, cycles, plane equations, "
+      "neighbours, edges, simplices (triangulation-invariant facts), volume, area, centroid, radii are compared with a shape freshly built by the real "
+      "constructor from the current vertices; after an exception the raw state must be unchanged; the orientation of a fixed vertex quadruple must survive "
+      "diagonalize_inertia.",
+      "reals not floats (A1); eigh/qhull/kabsch/lstsq contract stubs; a mirror finding needs the real eigh to reproduce it; bounded depth and path budget",
+      "DESIGN.md §6 C03")
+
+claim("C16", "symx",
+      "symbolic execution of every public query (reflection) on shapes with a free translation; state, handed-out arrays and arguments compared as terms; z3 decides the identities",
+      "All public properties and query/export methods of the ten classes (~290) are enumerated at run time and executed on base shapes placed by a free "
+      "translation; afterwards the raw state, every array handed out before the query and every array argument must be unchanged as symbolic terms, and "
+      "repeating the query must give the same answer; ordered pairs of state-touching queries in the thorough tier.",
+      "reals not floats (A1); plot/plato excluded; form factors in C12; miniball on symbolic points excluded; contract stubs",
+      "DESIGN.md §6 C16")
+
 ALL = ["C%02d" % i for i in range(1, 21)]
 
 
